@@ -55,7 +55,11 @@ Definition holds (c : case) : bool :=
             (Z.of_nat (frag_size s (node_content doc)) + slice_size s sl - Z.of_nat (to - from)) &&
       (if valid_inputs then normalized d' && check s d' else true) &&
       (if same then node_eqb d' doc else true)
-    | Err e => err_ok T from to e (negb same)
+    | Err e =>
+      (* a slice whose open depths exceed its content (valid_inputs = false: built by hand, Slice() checks nothing) may be
+         refused with either error class; an internal error or a wrong document never is acceptable *)
+      err_ok T from to e (negb same) ||
+      (negb valid_inputs && match e with ErrValue | ErrReplace => true | _ => false end)
     end
   | CFragCut s l from to obs =>
     match obs with
